@@ -607,6 +607,80 @@ def r7_ranges(facts):
                        'the live volume model is set from the setup without resolving AUTO to the bank default: after setting AUTO the previous explicit model stays in force (setVolumeScaleModel ignores AUTO)'))
     if n < 2:
         raise build.AnalysisBroken('C18.R7: functions deriving the live volume model from the setup not found (%d)' % n)
+    out += r7_model_table(facts)
+    return out
+
+
+def r7_model_table(facts):
+    """(c) the live volume model is a function of two settings (VolumeModel == AUTO?, LogarithmicVolumes != 0?).  applySetup computes
+    it at every reset / load; the two setters compute it when they are called.  The value a setter puts in force stays in force only if
+    all three compute the same function: evaluate the structured code of each for the four combinations (the last model action on the
+    path wins) and compare the tables."""
+    out = []
+    def action(x):
+        ap = assign_parts(x)
+        if ap and strip(ap[0]).get('k') == 'MemberExpr' and short(strip(ap[0])['n']) == 'm_volumeScale' and mentions(ap[1], member_named('volumeModel')):
+            return 'bank default'
+        if isinstance(x, dict) and 'callee' in x and short(callee_name(x)) == 'setVolumeScaleModel' and x.get('a'):
+            a = strip(x['a'][0])
+            while a is not None and (a.get('k') or '').endswith('CastExpr'):
+                a = strip(a.get('e'))
+            if a is not None and a.get('enumc') and 'Native' in (a.get('n') or ''):
+                return 'NativeOPN2'
+            return 'the requested model'
+        return None
+    def cond_value(c, env):
+        """truth of a condition under env = (auto, log); None when it does not test the two settings"""
+        vals = []
+        for f in literals(c, True):
+            if f[0] == 'cmp' and mentions(f[2], member_named('VolumeModel')) and const_of(f[3]) == 0 and f[1] in ('==', '!='):
+                vals.append(env[0] if f[1] == '==' else not env[0])
+            elif f[0] == 'cmp' and mentions(f[2], member_named('LogarithmicVolumes')) and const_of(f[3]) == 0 and f[1] in ('==', '!='):
+                vals.append((not env[1]) if f[1] == '==' else env[1])
+            elif f[0] == 'truth' and mentions(f[1], member_named('LogarithmicVolumes')):
+                vals.append(env[1] if f[2] else not env[1])
+            else:
+                return None
+        return all(vals) if vals else None
+    def run(t, env, last):
+        if t is None:
+            return last
+        if isinstance(t, list):
+            for y in t:
+                last = run(y, env, last)
+            return last
+        k = t.get('k')
+        if k == 'CompoundStmt':
+            return run(t.get('body'), env, last)
+        if k == 'IfStmt':
+            v = cond_value(t.get('cond'), env)
+            if v is None:
+                a, b = run(t.get('then'), env, last), run(t.get('else'), env, last)
+                return a if a != last else b       # conditions on other state (setupLocked): the arm that acts
+            return run(t.get('then') if v else t.get('else'), env, last)
+        for x in walk(t):
+            a = action(x)
+            if a:
+                last = a
+        return last
+    tables = {}
+    for name in ('OPNMIDIplay::applySetup', 'opn2_setVolumeRangeModel', 'opn2_setLogarithmicVolumes'):
+        fn = facts.fn(name)
+        tab = {}
+        for auto in (True, False):
+            for log in (True, False):
+                tab[(auto, log)] = run(fn.tree, (auto, log), None)
+        tables[name] = (fn, tab)
+    ref = tables['OPNMIDIplay::applySetup'][1]
+    if None in ref.values():
+        raise build.AnalysisBroken('C18.R7: applySetup sets no volume model for some combination of the two settings: %s' % ref)
+    for name in ('opn2_setVolumeRangeModel', 'opn2_setLogarithmicVolumes'):
+        fn, tab = tables[name]
+        diff = [(k, tab[k], ref[k]) for k in sorted(tab) if tab[k] != ref[k]]
+        out.append(Obl('C18.R7', name, 'volume model: same decision table as applySetup', fn.loc, 'discharged' if not diff else 'finding',
+                       why='all four combinations of (VolumeModel == AUTO, LogarithmicVolumes != 0) give the same model' if not diff else
+                       'with VolumeModel %s AUTO and LogarithmicVolumes %s the setter puts %s in force but the next reset / load (applySetup) selects %s: the accepted value does not stay in force' % (
+                           '==' if diff[0][0][0] else '!=', '!= 0' if diff[0][0][1] else '== 0', diff[0][1], diff[0][2])))
     return out
 
 
